@@ -485,15 +485,14 @@ class Fbank(LinearFilterBank):
         analytic: bool = False,
     ):
         scaling_function = MelScaling()
-        if low_hz < 0 or (
-            high_hz and (high_hz <= low_hz or high_hz > sampling_rate // 2)
-        ):
+        nyquist = sampling_rate / 2
+        if high_hz is None:
+            high_hz = nyquist
+        if low_hz < 0 or high_hz <= low_hz or high_hz > nyquist:
             raise ValueError(
                 "Invalid frequency range: ({:.2f},{:.2f}".format(low_hz, high_hz)
             )
         self._rate = sampling_rate
-        if high_hz is None:
-            high_hz = sampling_rate // 2
         # compute vertices
         scale_low = scaling_function.hertz_to_scale(low_hz)
         scale_high = scaling_function.hertz_to_scale(high_hz)
@@ -699,15 +698,14 @@ class GaborFilterBank(LinearFilterBank):
         )
         self._scale_l2_norm = scale_l2_norm
         self._erb = erb
-        if low_hz < 0 or (
-            high_hz and (high_hz <= low_hz or high_hz > sampling_rate // 2)
-        ):
+        nyquist = sampling_rate / 2
+        if high_hz is None:
+            high_hz = nyquist
+        if low_hz < 0 or high_hz <= low_hz or high_hz > nyquist:
             raise ValueError(
                 "Invalid frequency range: ({:.2f},{:.2f}".format(low_hz, high_hz)
             )
         self._rate = sampling_rate
-        if high_hz is None:
-            high_hz = sampling_rate // 2
         scale_low = scaling_function.hertz_to_scale(low_hz)
         scale_high = scaling_function.hertz_to_scale(high_hz)
         scale_delta = (scale_high - scale_low) / (num_filts + 1)
@@ -980,9 +978,10 @@ class ComplexGammatoneFilterBank(LinearFilterBank):
         )
         self._scale_l2_norm = scale_l2_norm
         self._erb = erb
-        if low_hz < 0 or (
-            high_hz and (high_hz <= low_hz or high_hz > sampling_rate // 2)
-        ):
+        nyquist = sampling_rate / 2
+        if high_hz is None:
+            high_hz = nyquist
+        if low_hz < 0 or high_hz <= low_hz or high_hz > nyquist:
             raise ValueError(
                 "Invalid frequency range: ({:.2f},{:.2f}".format(low_hz, high_hz)
             )
@@ -990,8 +989,6 @@ class ComplexGammatoneFilterBank(LinearFilterBank):
             raise ValueError("order must be a positive integer")
         self._order = order
         self._rate = sampling_rate
-        if high_hz is None:
-            high_hz = sampling_rate // 2
         scale_low = scaling_function.hertz_to_scale(low_hz)
         scale_high = scaling_function.hertz_to_scale(high_hz)
         scale_delta = (scale_high - scale_low) / (num_filts + 1)
